@@ -7,7 +7,7 @@ Local Open Scope N_scope.
 Record dobs := {
   o_pos : N;                       (* position of the declaration token *)
   o_name : name;
-  o_cells : list N;                (* get_decl_references(decl).cells, starts, in order *)
+  o_cells : list (N * N);          (* get_decl_references(decl).cells: the ranges, in order *)
   o_edits : list (N * N * name)    (* the WorkspaceEdit of rename at the declaration, sorted by start; new name as a name index *)
 }.
 
@@ -25,7 +25,14 @@ Fixpoint list_eqb (a b : list N) : bool :=
   | _, _ => false
   end.
 
-Definition mem (a : N) (l : list N) : bool := existsb (N.eqb a) l.
+Definition mem (a : N * N) (l : list (N * N)) : bool := existsb (range_eqb a) l.
+
+Fixpoint ranges_eqb (a b : list (N * N)) : bool :=
+  match a, b with
+  | [], [] => true
+  | x :: r, y :: r' => range_eqb x y && ranges_eqb r r'
+  | _, _ => false
+  end.
 
 Fixpoint index_of (a : N) (l : list N) (i : nat) : option nat :=
   match l with
@@ -56,9 +63,9 @@ Fixpoint apply_edits (fuel : nat) (t : text) (off : N) (es : list (N * N * name)
   end.
 
 Definition check_decl (p : program) (t : text) (fresh : name) (st : state) (o : dobs) : bool :=
-  let starts := map (fun e => fst (fst e)) (o_edits o) in
-  let model := map (fun e => fst (fst e)) (impl_rename st (o_pos o) (o_name o) fresh) in
-  list_eqb (decl_cells st (o_pos o)) (o_cells o)
+  let starts := map (fun e => fst e) (o_edits o) in
+  let model := map (fun e => fst e) (impl_rename st (o_pos o) (o_name o) fresh) in
+  ranges_eqb (decl_cell_ranges st (o_pos o)) (o_cells o)
   && forallb (fun q => mem q model) starts && forallb (fun q => mem q starts) model
   && Nat.eqb (List.length starts) (List.length model)
   && forallb (fun e => (snd (fst e) =? fst (fst e) + nlen (o_name o)) && (snd e =? fresh)) (o_edits o)
